@@ -1,5 +1,5 @@
 (* C17 - WellFormed decides exactly the documented rules and String agrees with it. *)
-From MQ Require Import Model.Render Proofs.BytesP Proofs.WfP Proofs.RenderP.
+From MQ Require Import Model.Render Proofs.BytesP Proofs.WfP Proofs.RenderP Model.StringIR Proofs.StringP gen.GenString gen.SyncString.
 From Coq Require Import Strings.String. From Coq Require Import List. Import ListNotations. Open Scope N_scope.
 
 (* for every packet value, built or decoded *)
@@ -33,3 +33,17 @@ Example C17_alias_only :
   /\ wellformed KPublish (run_calls KPublish [SetQoS 1; SetTopicName [x74]]) = Some WFPacketID
   /\ wellformed KSubscribe (run_calls KSubscribe [AddFilter [x61] 3]) = Some WFFilterQoS.
 Proof. vm_compute. repeat split. Qed.
+
+(* string_toks is the String method of the source for the fourteen packet
+   types whose String is `return [withForm(p, | withReason(p, ]
+   fmt.Sprintf(format, args...) [)]`: tools/gosync (acc.go) translates the
+   format string and each argument (first byte, flag renderings, fields,
+   accessors, the keep-alive duration, the size from the dry run, the reason
+   code's name, the filter text) into an item list; the regenerated lists are
+   those of Model/StringIR.v (gen/SyncString.v) and their interpretation is
+   string_toks (PUBLISH, which builds its topic text first, and Undefined
+   remain hand-modelled and fingerprinted). *)
+Theorem C17_string_is_the_source : forall k p, string_ir k <> None ->
+  run_string_of k p = string_toks k p.
+Proof. exact run_string_is_string_toks. Qed.
+Print Assumptions C17_string_is_the_source.
